@@ -1388,8 +1388,8 @@ class _InlineNewHelpers(_InlineMethods):
                     if len(set(heavy)) != len(heavy) or heavy != [p_ for p_ in callorder if p_ in heavy] or set(callorder) - set(heavy):
                         continue
                     recv_i = o['init'].args.args[0].arg
-                    vals = [(f_, _Rename({recv_i: x}).visit(_Subst({p_: a for p_, a in bound.items()}).visit(copy.deepcopy(v)))) for f_, v in o['init_vals']]
-                    calls_back = any(isinstance(y, ast.Name) and y.id == x for _f, v in vals for y in ast.walk(v))
+                    vals = [(f_, _Subst({p_: a for p_, a in bound.items()}).visit(_Rename({recv_i: x}).visit(copy.deepcopy(v)))) for f_, v in o['init_vals']]
+                    calls_back = any(isinstance(y, ast.Name) and y.id == recv_i for _f, v in o['init_vals'] for y in ast.walk(v))
                     if calls_back and len(objs) > 1:
                         continue
                     snapshot = copy.deepcopy(G.body) if calls_back else None
